@@ -123,7 +123,7 @@ static void step_oracles(void) {
     if (c->threadLimit < 1 || c->threadLimit > c->threadCapacity) oracle("threadLimit outside 1..threadCapacity");
     if (POOL_sizeof(c) != g_live_bytes) {
         /* after a POOL_resize whose k-th pthread_create failed the thread array has numThreads entries and threadCapacity < numThreads */
-        if (g_partial_resize && POOL_sizeof(c) < g_live_bytes && g_live_bytes - POOL_sizeof(c) <= g_partial_gap) {
+        if (zv_total_faults() > 0 && POOL_sizeof(c) < g_live_bytes && g_live_bytes - POOL_sizeof(c) <= g_partial_gap) {
             if (!g_sizeof_said) { oracle("POOL_sizeof under-reports the thread array after a POOL_resize in which pthread_create failed"); g_sizeof_said = 1; }
         } else oracle("POOL_sizeof differs from the bytes the pool holds");
     }
@@ -248,7 +248,6 @@ static void run_prog(const prog_t* p) {
             t_in_resize = 1; r = POOL_resize(g_ctx, n); t_in_resize = 0;
             failed = (zv_thread_faults() + t_alloc_faults) != f0;       /* the schedule injected an allocation / pthread_create failure into this call */
             if (r != (n == 0 || failed)) oracle(failed ? "POOL_resize returned 0 although thread creation failed" : "POOL_resize: unexpected return value");
-            if (failed) { g_partial_resize = 1; if (n * sizeof(ZSTD_pthread_t) > g_partial_gap) g_partial_gap = n * sizeof(ZSTD_pthread_t); }
             break; }
         default: break;
         }
@@ -268,6 +267,7 @@ static void run_case(void) {   /* in the forked child */
         sched_setaffinity(0, sizeof set, &set);
     }
     signal(SIGSEGV, on_crash); signal(SIGBUS, on_crash); signal(SIGFPE, on_crash); signal(SIGABRT, on_crash);
+    {   int a, b; for (a = 0; a < C.K; a++) for (b = 0; b < C.progs[a].n; b++) if (C.progs[a].ops[b].kind == 'r' && (size_t)C.progs[a].ops[b].arg * sizeof(ZSTD_pthread_t) > g_partial_gap) g_partial_gap = (size_t)C.progs[a].ops[b].arg * sizeof(ZSTD_pthread_t); }
     zv_sched_begin(&zp);
     {   ZSTD_customMem cm; cm.customAlloc = zv_acct_alloc; cm.customFree = zv_acct_free; cm.opaque = NULL;
         g_ctx = POOL_create_advanced((size_t)C.threads, (size_t)C.queue, cm);
